@@ -44,6 +44,9 @@ def run():
             continue
         if rc != 0 or not recs:
             raise vlib.Inconclusive("concurrent driver failed:\n" + txt[-3000:])
+        for x in recs:
+            if x.get("ev") == "fault":
+                v.fail("failing-reader", x)
         lines = [x for x in recs if x.get("ev") in ("new", "add", "match", "reset")]
         ctext = "SPECIFICATION TSpec\nCONSTANTS\n" + "".join("  %s = FALSE\n" % d for d in DEV_CONSTANTS) + "POSTCONDITION TraceAccepted\nCHECK_DEADLOCK FALSE\n"
         validate(v, acc, "TraceV2", "TraceV2.cfg", ctext, "trace_v2.ndjson", lines, classify, "concurrent results vs sequential results")
@@ -53,7 +56,7 @@ def run():
         acc.samples += [{k: x[k] for k in ("memo", "api", "ms")} for x in lines if x.get("ev") == "match"][:2]
     acc.extra["diffcalls"] = shared
     rc = v.finish()
-    vlib.write_evidence(PID, acc.coverage("8 (64) goroutines x 2 (6) rounds over 15 inputs (BSD-3/BSD-2/Apache/MIT/GPL texts, exact, edited, in context) on one default-corpus classifier, Match and MatchFrom mixed; every concurrent result must equal the sequential one bit for bit; distinct = inputs with a non-empty result"),
+    vlib.write_evidence(PID, acc.coverage("8 (64) goroutines x 2 (6) rounds over 15 inputs (BSD-3/BSD-2/Apache/MIT/GPL texts, exact, edited, in context) on one default-corpus classifier, Match and MatchFrom mixed, every fourth call preceded by a MatchFrom whose reader fails; every concurrent result must equal the sequential one bit for bit; distinct = inputs with a non-empty result"),
         ["writes inside go-diff are visible only through the race detector; the model contributes the ownership rule and the inputs/schedule that make the observation reliable",
          "the diffcall hook reports whether docDiff hands corpus storage (shared) or a private copy to the library"], time.time() - t0, len(v.violations))
     return rc
